@@ -268,7 +268,7 @@ func cmdRun(args []string) int {
 func printResult(hr *symx.HarnessResult) {
 	fmt.Printf("harness %s: paths=%d ended=%d dropped=%d violations=%d exhaustive=%v wall=%.1fs\n", hr.Harness, hr.Paths, hr.Ended, hr.Dropped, len(hr.Violations), hr.Exhaustive, hr.WallSeconds)
 	st := hr.Stats
-	fmt.Printf("  decisions=%d obligations=%d (folded %d, unsat %d, unknown %d) solver queries=%d (%.1fs, %d cross-checked) steps=%d merged=%d\n", st.Decisions, st.Obligations, st.ObFolded, st.ObUnsat, st.ObUnknown, hr.SolverQ, hr.SolverSec, hr.CrossChecked, st.Steps, st.Merged)
+	fmt.Printf("  decisions=%d obligations=%d (folded %d, unsat %d, unknown %d) solver queries=%d (%.1fs, %d cross-checked, %d retried) steps=%d merged=%d\n", st.Decisions, st.Obligations, st.ObFolded, st.ObUnsat, st.ObUnknown, hr.SolverQ, hr.SolverSec, hr.CrossChecked, hr.Retried, st.Steps, st.Merged)
 	for _, e := range hr.EngineErrors {
 		fmt.Printf("  ENGINE-ERROR: %s\n", e)
 	}
@@ -509,6 +509,7 @@ func cmdCheck(args []string) int {
 		SolverQ     int      `json:"solver_queries"`
 		SolverSec   float64  `json:"solver_seconds"`
 		Cross       int      `json:"queries_cross_checked_with_second_solver"`
+		Retried     int      `json:"queries_retried_with_longer_time_limit"`
 		Steps       int64    `json:"ssa_instructions_executed"`
 		Exhaustive  bool     `json:"path_tree_exhausted"`
 		Wall        float64  `json:"wall_s"`
@@ -548,7 +549,7 @@ func cmdCheck(args []string) int {
 		}
 		e := hev{Name: h.Name, Bound: h.Bound, Solver: o.Solver, Paths: hr.Paths, Ended: hr.Ended, Dropped: hr.Dropped, Decisions: hr.Stats.Decisions,
 			Obligations: hr.Stats.Obligations, ObFolded: hr.Stats.ObFolded, ObUnsat: hr.Stats.ObUnsat, WatchObl: hr.Stats.WatchObl, Exists: hr.Stats.ExistsQueries,
-			SolverQ: hr.SolverQ, SolverSec: hr.SolverSec, Cross: hr.CrossChecked, Steps: hr.Stats.Steps, Exhaustive: hr.Exhaustive, Wall: hr.WallSeconds, CheckSites: len(hr.Stats.CheckSites), Incomplete: hr.Incomplete}
+			SolverQ: hr.SolverQ, SolverSec: hr.SolverSec, Cross: hr.CrossChecked, Retried: hr.Retried, Steps: hr.Stats.Steps, Exhaustive: hr.Exhaustive, Wall: hr.WallSeconds, CheckSites: len(hr.Stats.CheckSites), Incomplete: hr.Incomplete}
 		for l := range hr.Stats.ReachLabels {
 			e.Reach = append(e.Reach, l)
 		}
@@ -675,6 +676,11 @@ func cmdCheck(args []string) int {
 	os.MkdirAll(filepath.Join(verifDir, "evidence"), 0o755)
 	eb, _ := json.MarshalIndent(ev, "", " ")
 	ioutil.WriteFile(filepath.Join(verifDir, "evidence", prop+".json"), eb, 0o644)
+	if violations > 0 {
+		// a violation that reproduces against the real build decides the check, whatever
+		// else was inconclusive in the same run
+		exit = 1
+	}
 	fmt.Printf("%s %s: exit %d (%.1fs)\n", prop, tier, exit, time.Since(t0).Seconds())
 	return exit
 }
